@@ -158,7 +158,12 @@ class SymStr:
     def __str__(self):
         return "<crs-string>"
 
-    __hash__ = None  # type: ignore[assignment]
+    def __hash__(self):
+        # the hash of a CRS is the hash of its string form: a function of the string's identity
+        # (concretised by case split), so equal CRSs spelled differently land in different buckets
+        # of a set or dict exactly as the real ones do
+        sid = self.sid
+        return hash(("crs-string", symx._sym_index(sid) if isinstance(sid, symx.Sym) else sid))
 
 
 _WKT = {}
@@ -188,7 +193,7 @@ class Tag:
         self.cls = Int(f"{name}_class", 1, 4)
         self.epsg = Int(f"{name}_epsg", 0)
         self.e70 = Int(f"{name}_lookup", 0)  # what a code lookup in the projection library answers (0: nothing)
-        self.sid = Int(f"{name}_str", 1)
+        self.sid = Int(f"{name}_str", 1, 6)
         self.is_none = bool(self.none)  # forks
         if self.is_none:
             self.crs = None
@@ -253,10 +258,24 @@ class Pred:
 
 class Shape:
     geom_type = "Polygon"
-    is_empty = False
 
     def __init__(self, name, origin=None):
         self.name, self.origin = name, origin
+        self._empty = None
+
+    @property
+    def is_empty(self):
+        """whether shapely reports the shape empty: unknown to the library, a symbolic flag per shape
+        (results of operations included: an intersection may well be empty)"""
+        if symx.concrete_mode():
+            return False
+        if self._empty is None:
+            c = symx.ctx()
+            c.fresh_n += 1
+            v = z3.Bool(f"_empty{c.fresh_n}")
+            symx._register(f"_empty{c.fresh_n}", v, "bool")  # part of the model: the replay picks disjoint shapes when one is set
+            self._empty = SymBool(v)
+        return bool(self._empty)  # forks
 
     def _call(self, op, other):
         if op in PREDICATES:
@@ -330,6 +349,11 @@ def mk_geom(name, tag):
         import shapely.geometry as sg
 
         polys = {"a": sg.box(0, 0, 2, 2), "b": sg.box(1, 1, 3, 3), "c": sg.box(1, 0, 4, 2)}
+        if any(k.startswith("_empty") and v for k, v in symx.ctx().model_vals.items()):
+            # the counterexample has an empty (intermediate) result: shapes a and b do not meet
+            polys = {"a": sg.box(0, 0, 1, 1), "b": sg.box(10, 10, 11, 11), "c": sg.box(0.5, 0.5, 4, 2)}
+            if symx.ctx().model_vals.get("_empty1"):  # the first shape asked is the leading operand: empty itself
+                polys["a"] = sg.Polygon()
         return Geometry(polys[name], tag.crs)
     g = Geometry.__new__(Geometry)
     g.geom = Shape(name)
